@@ -93,8 +93,8 @@ def member_subjects(n, orbits, k, seed, tag):
     for o in orbits:
         for i in range(k):
             rng = fw.rng_for(tag, seed, n, o, i)
-            # generator presentation rotates over classes and members: densely mixed / lightly mixed and reordered / sparse graph-like
-            style = [True, "light", False][(o + i) % 3]
+            # generator presentation rotates over classes and members: densely mixed / lightly mixed and reordered / sparse graph-like / heaviest group elements
+            style = [True, "light", False, "heavy"][(o + i) % 4]
             gens, info = members.member(n, o, rng, signs="plus", mix=style)
             yield gens, rng, {"source": "class-member", "orbit": o, "member_graph": info["graph"], "index": i, "mixing": str(style)}
 
